@@ -129,3 +129,16 @@ Theorem null_arguments :
   (forall b s n, memmove_front_m b None s n = Contract) /\ (forall b d n, memmove_front_m b (Some d) None n = Contract) /\
   (forall b d s n, memmove_front_m b (Some d) (Some s) n = memmove2_m b d s n).
 Proof. repeat split. Qed.
+
+(* the same against Spec.precondition_violated: a null argument is answered by the contract handler *)
+Definition is_null {A} (p : option A) : bool := match p with None => true | Some _ => false end.
+
+Theorem null_arguments_spec : forall d s n b ch,
+  (precondition_violated [is_null d; is_null s] = true ->
+     strcpy_front_m d s = Contract /\ strncpy_front_m d s n = Contract /\ memmove_front_m b d s n = Contract) /\
+  (precondition_violated [is_null (@None (list Z))] = true /\ strchr_front_m None ch = Contract) /\
+  (forall ct, strrchr_front_m ct None ch = Ok strrchr_null_s).
+Proof.
+  intros d s n b ch. split; [|split; [split; reflexivity | reflexivity]].
+  destruct d, s; cbn; intros H; try discriminate; repeat split.
+Qed.
